@@ -176,6 +176,12 @@ def mutants(prog, rng):
                     yield "numeric-argument", put(prog, path, n[:j] + (a + 1,) + n[j + 1:])
                     if isinstance(a, int):
                         yield "numeric-argument-int-to-float", put(prog, path, n[:j] + (float(a),) + n[j + 1:])
+                    else:
+                        import math
+
+                        yield "numeric-argument-one-ulp", put(prog, path, n[:j] + (math.nextafter(a, math.inf),) + n[j + 1:])
+                        if a:
+                            yield "numeric-argument-tiny-relative-change", put(prog, path, n[:j] + (a * (1 + 2 ** -36),) + n[j + 1:])
                 elif isinstance(a, tuple):
                     if isinstance(a[2], int):
                         yield "qubit-index", put(prog, path, n[:j] + (("array_item", a[1], a[2] + 1),) + n[j + 1:])
